@@ -268,6 +268,27 @@ fn float_only<S: Num + cgmath::BaseFloat>(rec: &mut Rec, rng: &mut Rng) {
             Ok(d) => rec.ok("Decomposed accepted in any field order with the same value", d == expected, || format!("{text} -> {d:?}")),
             Err(e) => rec.ok("Decomposed accepted in any field order", false, || format!("{text}: {e}")),
         }
+        // the same document through the other entry points of the same format: a reader (keys
+        // arrive as transient, non-borrowed strings), a byte slice, and keys written with JSON escapes
+        match serde_json::from_reader::<_, DQ<S>>(std::io::Cursor::new(text.as_bytes().to_vec())) {
+            Ok(d) => rec.ok("Decomposed read from a reader: same value", d == expected, || format!("{text} -> {d:?}")),
+            Err(e) => rec.ok("Decomposed read from a reader is accepted", false, || format!("{text}: {e}")),
+        }
+        match serde_json::from_slice::<DQ<S>>(text.as_bytes()) {
+            Ok(d) => rec.ok("Decomposed read from a byte slice: same value", d == expected, || format!("{text} -> {d:?}")),
+            Err(e) => rec.ok("Decomposed read from a byte slice is accepted", false, || format!("{text}: {e}")),
+        }
+        let escaped = text.replace("\"scale\"", "\"sc\\u0061le\"").replace("\"rot\"", "\"r\\u006ft\"").replace("\"disp\"", "\"d\\u0069sp\"");
+        match serde_json::from_str::<DQ<S>>(&escaped) {
+            Ok(d) => rec.ok("Decomposed with JSON-escaped keys: same value", d == expected, || format!("{escaped} -> {d:?}")),
+            Err(e) => rec.ok("Decomposed with JSON-escaped keys is accepted", false, || format!("{escaped}: {e}")),
+        }
+    }
+    // own output through a reader, as a program loading a saved scene does
+    {
+        let text = serde_json::to_string(&expected).unwrap();
+        let r = serde_json::from_reader::<_, DQ<S>>(std::io::Cursor::new(text.clone().into_bytes()));
+        rec.ok("Decomposed: to_string output read back through a reader", r.as_ref().map(|d| *d == expected).unwrap_or(false), || format!("{text}: {:?}", r.as_ref().err()));
     }
     for skip in 0..3 {
         for o in [[0usize, 1, 2], [2, 1, 0]] {
@@ -294,6 +315,20 @@ fn float_only<S: Num + cgmath::BaseFloat>(rec: &mut Rec, rng: &mut Rng) {
         "\"scale \":2.5".to_string(),
         "\"x\":0.0".to_string(),
         "\"\":0.0".to_string(),
+        // plausible aliases and annotation keys, each with a value of the shape of the field it
+        // might be taken for (so that a type mismatch cannot be what rejects it)
+        format!("\"rotation\":{}", parts[1].1),
+        format!("\"translation\":{}", parts[2].1),
+        format!("\"displacement\":{}", parts[2].1),
+        format!("\"position\":{}", parts[2].1),
+        format!("\"orientation\":{}", parts[1].1),
+        "\"s\":2.5".to_string(),
+        "\"$schema\":\"https://example.org/decomposed.json\"".to_string(),
+        "\"$comment\":\"saved by the editor\"".to_string(),
+        "\"_comment\":\"x\"".to_string(),
+        "\"type\":\"Decomposed\"".to_string(),
+        "\"version\":1".to_string(),
+        "\"id\":7".to_string(),
     ];
     for (k, extra_field) in strangers.iter().enumerate() {
         for pos in 0..4 {
@@ -303,9 +338,9 @@ fn float_only<S: Num + cgmath::BaseFloat>(rec: &mut Rec, rng: &mut Rng) {
             let r = serde_json::from_str::<DQ<S>>(&text);
             rec.ok("Decomposed with an unknown field is rejected", r.is_err(), || format!("{text} -> {:?}", r.as_ref().ok()));
         }
-        // a near miss does not stand in for the real field either
-        if (1..5).contains(&k) {
-            let replaced = match k { 1 | 2 => 0, 3 => 2, _ => 1 };
+        // a near miss or an alias does not stand in for the real field either
+        if (1..5).contains(&k) || (8..14).contains(&k) {
+            let replaced = match k { 1 | 2 | 13 => 0, 3 | 9 | 10 | 11 => 2, _ => 1 };
             let fields: Vec<String> = (0..3).map(|i| if i == replaced { extra_field.clone() } else { format!("\"{}\":{}", parts[i].0, parts[i].1) }).collect();
             let text = format!("{{{}}}", fields.join(","));
             let r = serde_json::from_str::<DQ<S>>(&text);
